@@ -148,12 +148,15 @@ def tf_compose(b, a):
 
 
 def ego_tf(ego):
-    """ego = [x, y, yaw] (optionally [x, y, z, yaw]): base_link -> map."""
+    """ego = [x, y, yaw], [x, y, z, yaw] or [x, y, z, yaw, pitch, roll] (ego on a slope): base_link -> map."""
     if len(ego) == 3:
         x, y, yaw = ego
         z = 0.0
-    else:
+    elif len(ego) == 4:
         x, y, z, yaw = ego
+    else:
+        x, y, z, yaw, pitch, roll = ego
+        return ((x, y, z), q_from_ypr(yaw, pitch, roll))
     return ((x, y, z), q_from_yaw(yaw))
 
 
